@@ -63,6 +63,53 @@ def _on_inplace_only(cfg: CFG, node: int, tb: set[int]) -> bool:
     return any(cfg.dominates(b, node) for b in tb)
 
 
+def state_dtype_closure(fn: ast.AST, e: ast.AST, _seen=None) -> bool:
+    """Does the expression (through local definitions) read the dtype of the object's CURRENT state (`self.<x>.dtype`, `self.dtype`,
+    `getattr(self, …).dtype`)?  A semantic fact about where a conversion target comes from, independent of how the setter is laid out."""
+    _seen = _seen if _seen is not None else set()
+    for x in ast.walk(e):
+        if isinstance(x, ast.Attribute) and x.attr == "dtype":
+            b = x.value
+            if (dotted(b) or "").startswith("self") :
+                return True
+            if isinstance(b, ast.Name) and b.id not in _seen:
+                _seen.add(b.id)
+                for d in definitions(fn, b.id):
+                    if isinstance(d, ast.AST) and (any((dotted(y) or "").startswith("self.") for y in ast.walk(d) if isinstance(y, ast.Attribute))
+                                                   or any(isinstance(y, ast.Call) and call_name(y) == "getattr" and y.args and dotted(y.args[0]) == "self" for y in ast.walk(d))):
+                        return True
+        if isinstance(x, ast.Name) and x.id not in _seen:
+            _seen.add(x.id)
+            for d in definitions(fn, x.id):
+                if isinstance(d, ast.AST) and state_dtype_closure(fn, d, _seen):
+                    return True
+    return False
+
+
+def calibration_setter_dtype(check, repo: Repo, rule: str, why: str) -> None:
+    """The sampling / origin setters store the validated value without converting it to the dtype of the calibration it replaces: computed
+    calibrations (sampling·factor, N_in/N_out pitches, shifted origins) are floating point whatever the constructor was given."""
+    n = 0
+    for prop in ("sampling", "origin"):
+        mod, st = repo.func(f"{DS}:Dataset.{prop}@setter")
+        for c in calls_in(st):
+            if call_name(c) != "validate_ndinfo":
+                continue
+            n += 1
+            dt = kwarg(c, "dtype") or (c.args[3] if len(c.args) > 3 else None)
+            key = f"Dataset.{prop} setter: the new calibration is not converted to the dtype of the one it replaces"
+            if dt is None or is_const(dt, None):
+                check.holds(rule, key, "validate_ndinfo without a dtype", mod.line(c))
+            elif state_dtype_closure(st, dt):
+                check.violated(rule, key, f"`dtype={unparse(dt)[:40]}` is taken from the current `{prop}`: a dataset constructed with integer calibration truncates every computed "
+                               f"calibration installed through the setter (0.5 → 0) — {why}", mod.line(c), definite=True)
+            elif unparse(dt) in ("float", "np.float64", "np.float32", "numpy.float64", "np.floating", "'float64'", "'float32'"):
+                check.holds(rule, key, f"fixed floating dtype {unparse(dt)}", mod.line(c))
+            else:
+                raise AnalysisError(f"Dataset.{prop} setter: dtype `{unparse(dt)[:40]}` passed to validate_ndinfo not recognised")
+    check.floor("calibration setters validated by validate_ndinfo", n, 2)
+
+
 def run(check, repo: Repo) -> None:
     mod, cls = repo.cls(f"{DS}:Dataset")
     vmod = repo.module(VAL)
@@ -93,9 +140,13 @@ def run(check, repo: Repo) -> None:
     _, aset = repo.func(f"{DS}:Dataset.array@setter")
     forced = [unparse(k.value) for c in calls_in(aset) if call_name(c) == "ensure_valid_array" for k in c.keywords if k.arg == "dtype" and not is_const(k.value, None)]
     forced += [unparse(c)[:50] for c in calls_in(aset) if isinstance(c.func, ast.Attribute) and c.func.attr == "astype"]
+    prev_ = [c for c in calls_in(aset) if (isinstance(c.func, ast.Attribute) and c.func.attr == "astype" and c.args and state_dtype_closure(aset, c.args[0]))
+             or any(k.arg == "dtype" and state_dtype_closure(aset, k.value) for k in c.keywords)]
     check.decide(not forced, "C03-R5", "Dataset.array setter does not coerce the new array to the previous dtype (copying and in-place variants install the same array)", "", mod.line(aset),
+                 definite=bool(prev_),
                  fail_detail=f"the setter forces dtype {forced}: copying bin(reducer='mean') / fourier_resample on integer data are truncated back to integers while the in-place variants, "
                              f"which bind self._array directly, keep the floating-point result")
+    calibration_setter_dtype(check, repo, "C03-R5", "the copying variants (which go through the setter) and the in-place variants (which bind the private field) disagree")
     _, vn = repo.func(f"{VAL}:validate_ndinfo")
     _, vu = repo.func(f"{VAL}:validate_units")
     _, eva = repo.func(f"{VAL}:ensure_valid_array")
